@@ -1,52 +1,510 @@
-//! C01 — ops evaluated on the real code and the generator of their inputs.
+//! C01 — mutation histories on the real representations, observed after EVERY call.
 //!
-//!   repr_obs <desc>  =>  [order [vertices] [arcs]]     build through the public API, observe
+//!   repr_obs <desc>                    =>  [order [vertices] [arcs]]
+//!   repr_history <repr> <start> <ops>  =>  [start OBS] [ret OBS]* [final order [verts] [arcs] ([arcs()])]
+//!
+//! `<start>` is a digraph description (built through the public API), `<ops>` a list of
+//! `[add u v] [addw u v w] [rem u v] [tog u v]` (`add`: the four unweighted representations,
+//! `addw`: `wu`/`wi`, `tog`: `mx`).  Every call runs under its own `catch_unwind`; after a panic
+//! the SAME digraph is used for the following calls — that is how "leaves the digraph
+//! unchanged" is observed.  `ret` is `unit | true | false | panic`.
+//!
+//! `OBS` depends on the probe universe `U` = start vertices ∪ {m, m+1} (m = max start id + 1)
+//! ∪ all ids mentioned by the ops:
+//!   * |U| ≤ 12 ("full"):   `order [vertices] [arcs] size [has]`, `has` = all `(u,v) ∈ U×U` with
+//!     `has_arc(u,v)` (weighted: `[u v w]` from `arc_weight`);
+//!   * otherwise ("digest"): `order #vertices size hash [p q]` — a rolling hash of
+//!     `vertices()` and `arcs()`/`arcs_weighted()` in iteration order and `has_arc` /
+//!     `arc_weight` on `(u,v)`, `(v,u)` of the call; the full final observation closes the line.
 #![allow(unused_imports, dead_code, clippy::all)]
 
 use crate::graphs::{self, Desc};
 use crate::rng::Rng;
 use crate::value::V;
+use graaf::{
+    AddArc, AddArcWeighted, AdjacencyList, AdjacencyListWeighted, AdjacencyMap, AdjacencyMatrix,
+    ArcWeight, Arcs, ArcsWeighted, EdgeList, HasArc, Order, RemoveArc, Size, Vertices,
+};
+use std::panic::{catch_unwind, AssertUnwindSafe};
+
+#[derive(Clone, Debug, PartialEq, Eq)]
+pub enum HOp {
+    Add(usize, usize),
+    AddW(usize, usize, i128),
+    Rem(usize, usize),
+    Tog(usize, usize),
+}
+
+impl HOp {
+    pub fn parse(v: &V) -> Option<HOp> {
+        let xs = v.as_list()?;
+        let name = xs.first()?.as_atom()?;
+        match (name, xs.len()) {
+            ("add", 3) => Some(HOp::Add(xs[1].as_usize()?, xs[2].as_usize()?)),
+            ("rem", 3) => Some(HOp::Rem(xs[1].as_usize()?, xs[2].as_usize()?)),
+            ("tog", 3) => Some(HOp::Tog(xs[1].as_usize()?, xs[2].as_usize()?)),
+            ("addw", 4) => match &xs[3] {
+                V::I(w) => Some(HOp::AddW(xs[1].as_usize()?, xs[2].as_usize()?, *w)),
+                _ => None,
+            },
+            _ => None,
+        }
+    }
+    pub fn to_v(&self) -> V {
+        match *self {
+            HOp::Add(u, v) => V::L(vec![V::atom("add"), V::u(u), V::u(v)]),
+            HOp::Rem(u, v) => V::L(vec![V::atom("rem"), V::u(u), V::u(v)]),
+            HOp::Tog(u, v) => V::L(vec![V::atom("tog"), V::u(u), V::u(v)]),
+            HOp::AddW(u, v, w) => V::L(vec![V::atom("addw"), V::u(u), V::u(v), V::I(w)]),
+        }
+    }
+    pub fn ends(&self) -> (usize, usize) {
+        match *self {
+            HOp::Add(u, v) | HOp::Rem(u, v) | HOp::Tog(u, v) | HOp::AddW(u, v, _) => (u, v),
+        }
+    }
+}
+
+pub fn parse_ops(v: &V) -> Option<Vec<HOp>> {
+    v.as_list()?.iter().map(HOp::parse).collect()
+}
+
+pub fn show_ops(ops: &[HOp]) -> V {
+    V::L(ops.iter().map(HOp::to_v).collect())
+}
+
+/// The real digraph under test, seen only through graaf's public API.
+pub trait Subject: Clone + Eq + Ord + std::hash::Hash {
+    const WEIGHTED: bool;
+    /// `None` = the representation has no such method.
+    fn apply(&mut self, op: &HOp) -> Option<V>;
+    fn order_(&self) -> usize;
+    fn verts_(&self) -> Vec<usize>;
+    /// `arcs()` (unweighted, weight 1) or `arcs_weighted()`.
+    fn arcs_(&self) -> Vec<(usize, usize, i128)>;
+    /// `arcs()` (also for the weighted representation).
+    fn plain_arcs_(&self) -> Vec<(usize, usize)>;
+    fn size_(&self) -> usize;
+    /// `has_arc` (unweighted: `Some(1)`) / `arc_weight`, plus `has_arc` for the weighted one.
+    fn weight_(&self, u: usize, v: usize) -> Option<i128>;
+}
+
+fn unit_or_panic<F: FnOnce()>(f: F) -> V {
+    match catch_unwind(AssertUnwindSafe(f)) {
+        Ok(()) => V::atom("unit"),
+        Err(_) => V::atom("panic"),
+    }
+}
+
+fn bool_or_panic<F: FnOnce() -> bool>(f: F) -> V {
+    match catch_unwind(AssertUnwindSafe(f)) {
+        Ok(b) => V::bool(b),
+        Err(_) => V::atom("panic"),
+    }
+}
+
+macro_rules! impl_subject_unweighted {
+    ($t:ty, $tog:expr) => {
+        impl Subject for $t {
+            const WEIGHTED: bool = false;
+            fn apply(&mut self, op: &HOp) -> Option<V> {
+                match *op {
+                    HOp::Add(u, v) => Some(unit_or_panic(|| self.add_arc(u, v))),
+                    HOp::Rem(u, v) => Some(bool_or_panic(|| self.remove_arc(u, v))),
+                    HOp::Tog(u, v) => {
+                        let f: Option<fn(&mut $t, usize, usize)> = $tog;
+                        let f = f?;
+                        Some(unit_or_panic(|| f(self, u, v)))
+                    }
+                    HOp::AddW(..) => None,
+                }
+            }
+            fn order_(&self) -> usize {
+                self.order()
+            }
+            fn verts_(&self) -> Vec<usize> {
+                self.vertices().collect()
+            }
+            fn arcs_(&self) -> Vec<(usize, usize, i128)> {
+                self.arcs().map(|(u, v)| (u, v, 1)).collect()
+            }
+            fn plain_arcs_(&self) -> Vec<(usize, usize)> {
+                self.arcs().collect()
+            }
+            fn size_(&self) -> usize {
+                self.size()
+            }
+            fn weight_(&self, u: usize, v: usize) -> Option<i128> {
+                if self.has_arc(u, v) {
+                    Some(1)
+                } else {
+                    None
+                }
+            }
+        }
+    };
+}
+
+impl_subject_unweighted!(AdjacencyList, None);
+impl_subject_unweighted!(AdjacencyMap, None);
+impl_subject_unweighted!(EdgeList, None);
+impl_subject_unweighted!(AdjacencyMatrix, Some(AdjacencyMatrix::toggle));
+
+macro_rules! impl_subject_weighted {
+    ($w:ty) => {
+        impl Subject for AdjacencyListWeighted<$w> {
+            const WEIGHTED: bool = true;
+            fn apply(&mut self, op: &HOp) -> Option<V> {
+                match *op {
+                    HOp::AddW(u, v, w) => {
+                        let w = <$w>::try_from(w).ok()?;
+                        Some(unit_or_panic(|| self.add_arc_weighted(u, v, w)))
+                    }
+                    HOp::Rem(u, v) => Some(bool_or_panic(|| self.remove_arc(u, v))),
+                    _ => None,
+                }
+            }
+            fn order_(&self) -> usize {
+                self.order()
+            }
+            fn verts_(&self) -> Vec<usize> {
+                self.vertices().collect()
+            }
+            fn arcs_(&self) -> Vec<(usize, usize, i128)> {
+                self.arcs_weighted().map(|(u, v, w)| (u, v, *w as i128)).collect()
+            }
+            fn plain_arcs_(&self) -> Vec<(usize, usize)> {
+                self.arcs().collect()
+            }
+            fn size_(&self) -> usize {
+                self.size()
+            }
+            fn weight_(&self, u: usize, v: usize) -> Option<i128> {
+                let w = self.arc_weight(u, v).map(|w| *w as i128);
+                // `has_arc` must agree with `arc_weight`; a disagreement is made visible as an
+                // impossible weight so that both verdict kinds fire on it
+                if self.has_arc(u, v) != w.is_some() {
+                    return Some(i128::from(i64::MIN));
+                }
+                w
+            }
+        }
+    };
+}
+
+impl_subject_weighted!(usize);
+impl_subject_weighted!(isize);
+
+/// Run `$body` with `$d` bound to the real digraph of whichever representation `$desc` names.
+#[macro_export]
+macro_rules! with_subject {
+    ($desc:expr, $d:ident => $body:expr) => {{
+        let desc__: &$crate::graphs::Desc = $desc;
+        match desc__.repr.as_str() {
+            "al" => { let mut $d = desc__.build_al(); Some($body) }
+            "am" => { let mut $d = desc__.build_am(); Some($body) }
+            "mx" => { let mut $d = desc__.build_mx(); Some($body) }
+            "el" => { let mut $d = desc__.build_el(); Some($body) }
+            "wu" => { let mut $d = desc__.build_wu(); Some($body) }
+            "wi" => { let mut $d = desc__.build_wi(); Some($body) }
+            _ => None,
+        }
+    }};
+}
+
+// ------------------------------------------------------------------------------ observation
+
+pub fn show_arc(weighted: bool, a: (usize, usize, i128)) -> V {
+    if weighted {
+        V::L(vec![V::u(a.0), V::u(a.1), V::I(a.2)])
+    } else {
+        V::L(vec![V::u(a.0), V::u(a.1)])
+    }
+}
+
+pub fn show_arcs(weighted: bool, arcs: &[(usize, usize, i128)]) -> V {
+    V::L(arcs.iter().map(|&a| show_arc(weighted, a)).collect())
+}
+
+pub fn show_w(o: Option<i128>) -> V {
+    match o {
+        None => V::atom("false"),
+        Some(w) => V::I(w),
+    }
+}
+
+const HASH_P: u128 = (1u128 << 61) - 1;
+const HASH_B: u128 = 1_000_003;
+
+fn mix(h: u128, x: u128) -> u128 {
+    (h * HASH_B + x) % HASH_P
+}
+
+/// Rolling hash of `vertices()` then the arcs in iteration order (shared with the driver).
+pub fn digest(verts: &[usize], arcs: &[(usize, usize, i128)]) -> u128 {
+    let mut h: u128 = 7;
+    for &x in verts {
+        h = mix(h, x as u128 + 1);
+    }
+    h = mix(h, 0);
+    for &(u, v, w) in arcs {
+        h = mix(h, u as u128 + 1);
+        h = mix(h, v as u128 + 1);
+        h = mix(h, (w + (1i128 << 70)) as u128);
+    }
+    h
+}
+
+pub fn universe(desc: &Desc, ops: &[HOp]) -> Vec<usize> {
+    let mut u: std::collections::BTreeSet<usize> = desc.verts.iter().copied().collect();
+    let m = desc.verts.iter().copied().max().map_or(0, |x| x + 1);
+    let _ = u.insert(m);
+    let _ = u.insert(m + 1);
+    for op in ops {
+        let (a, b) = op.ends();
+        let _ = u.insert(a);
+        let _ = u.insert(b);
+    }
+    u.into_iter().collect()
+}
+
+pub const FULL_LIMIT: usize = 12;
+
+fn obs_full<D: Subject>(d: &D, uni: &[usize], out: &mut Vec<V>) {
+    let arcs = d.arcs_();
+    out.push(V::u(d.order_()));
+    out.push(V::us(d.verts_()));
+    out.push(show_arcs(D::WEIGHTED, &arcs));
+    out.push(V::u(d.size_()));
+    let mut has = vec![];
+    for &u in uni {
+        for &v in uni {
+            if let Some(w) = d.weight_(u, v) {
+                has.push(show_arc(D::WEIGHTED, (u, v, w)));
+            }
+        }
+    }
+    out.push(V::L(has));
+}
+
+fn obs_digest<D: Subject>(d: &D, probe: Option<(usize, usize)>, out: &mut Vec<V>) {
+    let verts = d.verts_();
+    let arcs = d.arcs_();
+    out.push(V::u(d.order_()));
+    out.push(V::u(verts.len()));
+    out.push(V::u(d.size_()));
+    out.push(V::I(digest(&verts, &arcs) as i128));
+    let probes = match probe {
+        Some((u, v)) => vec![show_w(d.weight_(u, v)), show_w(d.weight_(v, u))],
+        None => vec![],
+    };
+    out.push(V::L(probes));
+}
+
+pub fn obs_final<D: Subject>(d: &D) -> V {
+    let mut out = vec![V::atom("final"), V::u(d.order_()), V::us(d.verts_()), show_arcs(D::WEIGHTED, &d.arcs_())];
+    if D::WEIGHTED {
+        out.push(V::pairs(d.plain_arcs_()));
+    }
+    V::L(out)
+}
+
+/// Run a history on `d`, one output value per step. `None` = unsupported op.
+pub fn run_history<D: Subject>(d: &mut D, desc: &Desc, ops: &[HOp]) -> Option<Vec<V>> {
+    let uni = universe(desc, ops);
+    let full = uni.len() <= FULL_LIMIT;
+    let mut outs = vec![];
+    let mut first = vec![V::atom("start")];
+    if full {
+        obs_full(d, &uni, &mut first);
+    } else {
+        obs_digest(d, None, &mut first);
+    }
+    outs.push(V::L(first));
+    for op in ops {
+        let ret = d.apply(op)?;
+        let mut step = vec![ret];
+        if full {
+            obs_full(d, &uni, &mut step);
+        } else {
+            obs_digest(d, Some(op.ends()), &mut step);
+        }
+        outs.push(V::L(step));
+    }
+    outs.push(obs_final(d));
+    Some(outs)
+}
 
 pub fn eval(op: &str, args: &[V]) -> Option<Vec<V>> {
     match op {
         "repr_obs" => {
             let [d] = args else { return None };
             let desc = Desc::parse(d)?;
-            Some(vec![match desc.repr.as_str() {
-                "al" => graphs::observe(&desc.build_al()),
-                "am" => graphs::observe(&desc.build_am()),
-                "mx" => graphs::observe(&desc.build_mx()),
-                "el" => graphs::observe(&desc.build_el()),
-                "wu" => {
-                    let d = desc.build_wu();
-                    V::L(vec![
-                        V::u(graaf::Order::order(&d)),
-                        V::us(graaf::Vertices::vertices(&d)),
-                        V::L(graaf::ArcsWeighted::arcs_weighted(&d)
-                            .map(|(u, v, w)| V::L(vec![V::u(u), V::u(v), V::u(*w)]))
-                            .collect()),
-                    ])
-                }
-                "wi" => {
-                    let d = desc.build_wi();
-                    V::L(vec![
-                        V::u(graaf::Order::order(&d)),
-                        V::us(graaf::Vertices::vertices(&d)),
-                        V::L(graaf::ArcsWeighted::arcs_weighted(&d)
-                            .map(|(u, v, w)| V::L(vec![V::u(u), V::u(v), V::i(*w)]))
-                            .collect()),
-                    ])
-                }
-                _ => return None,
-            }])
+            with_subject!(&desc, g => {
+                let arcs = g.arcs_();
+                let w = desc.weighted();
+                let _ = &mut g;
+                vec![V::L(vec![V::u(g.order_()), V::us(g.verts_()), show_arcs(w, &arcs)])]
+            })
+        }
+        "repr_history" => {
+            let [repr, start, ops] = args else { return None };
+            let desc = Desc::parse(start)?;
+            if repr.as_atom()? != desc.repr {
+                return None;
+            }
+            let ops = parse_ops(ops)?;
+            with_subject!(&desc, g => run_history(&mut g, &desc, &ops))?
         }
         _ => None,
     }
 }
 
+// ------------------------------------------------------------------------------ generator
+
+/// A history of `len` calls for representation `repr` over the start `desc`.
+/// 80 % valid / 20 % invalid arguments; valid ones biased to a few hot pairs so that
+/// add → remove → re-add, double remove, toggle twice and weight replacement occur.
+pub fn gen_ops(rng: &mut Rng, repr: &str, desc: &Desc, len: usize) -> Vec<HOp> {
+    let weighted = repr == "wu" || repr == "wi";
+    let ids: Vec<usize> = desc.verts.clone();
+    let n = ids.len();
+    let top = ids.iter().copied().max().map_or(0, |x| x + 1);
+    let pick_pair = |rng: &mut Rng| -> Option<(usize, usize)> {
+        if n < 2 {
+            return None;
+        }
+        let a = rng.below(n);
+        let mut b = rng.below(n - 1);
+        if b >= a {
+            b += 1;
+        }
+        Some((ids[a], ids[b]))
+    };
+    let mut hot: Vec<(usize, usize)> = vec![];
+    if let Some((a, b)) = pick_pair(rng) {
+        hot.push((a, b));
+        hot.push((b, a));
+        for _ in 0..rng.below(3) {
+            if let Some(p) = pick_pair(rng) {
+                hot.push(p);
+            }
+        }
+    }
+    let mut ops = vec![];
+    for _ in 0..len {
+        let invalid = rng.chance(1, 5) || hot.is_empty();
+        let (u, v) = if invalid {
+            let x = if n > 0 { ids[rng.below(n)] } else { 0 };
+            match rng.below(5) {
+                0 | 1 => (x, x),                 // self-loop
+                2 => (top, x),                   // u = order
+                3 => (x, top + 1),               // v = order + 1
+                _ => {
+                    // far-out id (the map admits it: keep it small enough to stay cheap)
+                    if rng.chance(1, 2) { (x, 1usize << 40) } else { (1usize << 40, x) }
+                }
+            }
+        } else if rng.chance(7, 10) {
+            *rng.pick(&hot)
+        } else {
+            pick_pair(rng).expect("n >= 2")
+        };
+        let k = rng.below(100);
+        let op = if repr == "mx" {
+            if k < 35 { HOp::Add(u, v) } else if k < 70 { HOp::Rem(u, v) } else { HOp::Tog(u, v) }
+        } else if weighted {
+            let w = if repr == "wu" { rng.range(0, 5) } else { rng.range(-3, 3) };
+            if k < 55 { HOp::AddW(u, v, i128::from(w)) } else { HOp::Rem(u, v) }
+        } else if k < 55 {
+            HOp::Add(u, v)
+        } else {
+            HOp::Rem(u, v)
+        };
+        ops.push(op);
+    }
+    ops
+}
+
+/// A start digraph: `empty(n)` or a random description (sparse for big orders so that the
+/// per-step digests stay cheap); the map sometimes over non-contiguous ids.
+pub fn gen_start(rng: &mut Rng, repr: &str) -> Desc {
+    let weighted = repr == "wu" || repr == "wi";
+    if rng.chance(1, 2) {
+        let n = graphs::gen_order(rng, 130);
+        return Desc { repr: repr.to_string(), verts: (0..n).collect(), arcs: vec![], weights: vec![] };
+    }
+    if repr == "am" && rng.chance(1, 2) {
+        return graphs::gen_am_sparse(rng, 8).1;
+    }
+    let mut d = if weighted {
+        let (lo, hi) = if repr == "wu" { (0, 5) } else { (-3, 3) };
+        graphs::gen_wdesc(rng, repr, 130, lo, hi).1
+    } else {
+        graphs::gen_desc(rng, repr, 130).1
+    };
+    let cap = 4 * d.verts.len() + 8;
+    if d.arcs.len() > cap && d.verts.len() > 10 {
+        d.arcs.truncate(cap);
+        d.weights.truncate(cap);
+    }
+    d
+}
+
+fn emit_history(emit: &mut dyn FnMut(String), repr: &str, desc: &Desc, ops: &[HOp]) {
+    emit(format!("repr_history {repr} {} {}", desc.to_v(), show_ops(ops)));
+}
+
+/// Every history of length ≤ `max_len` over `n` vertices (all `n²` pairs incl. self-loops).
+fn gen_exhaustive(emit: &mut dyn FnMut(String), repr: &str, n: usize, max_len: usize) {
+    let weighted = repr == "wu" || repr == "wi";
+    let mut alphabet: Vec<HOp> = vec![];
+    for u in 0..n {
+        for v in 0..n {
+            if weighted {
+                alphabet.push(HOp::AddW(u, v, 1));
+                if u == 0 {
+                    alphabet.push(HOp::AddW(u, v, 2));
+                }
+            } else {
+                alphabet.push(HOp::Add(u, v));
+            }
+            alphabet.push(HOp::Rem(u, v));
+            if repr == "mx" {
+                alphabet.push(HOp::Tog(u, v));
+            }
+        }
+    }
+    let desc = Desc { repr: repr.to_string(), verts: (0..n).collect(), arcs: vec![], weights: vec![] };
+    let k = alphabet.len();
+    for len in 0..=max_len {
+        let total = k.pow(len as u32);
+        for code in 0..total {
+            let mut c = code;
+            let mut ops = Vec::with_capacity(len);
+            for _ in 0..len {
+                ops.push(alphabet[c % k].clone());
+                c /= k;
+            }
+            emit_history(emit, repr, &desc, &ops);
+        }
+    }
+}
+
 pub fn gen(rng: &mut Rng, thorough: bool, emit: &mut dyn FnMut(String)) {
-    let n = if thorough { 3000 } else { 300 };
-    for _ in 0..n {
+    // shortest lines first: the first failing case the orchestrator sees is a small one
+    let mut lines: Vec<String> = vec![];
+    gen_unsorted(rng, thorough, &mut |s| lines.push(s));
+    lines.sort_by_key(String::len);
+    for l in lines {
+        emit(l);
+    }
+}
+
+fn gen_unsorted(rng: &mut Rng, thorough: bool, emit: &mut dyn FnMut(String)) {
+    // (1) the construction correspondence `repr_obs` (seed op): descriptions of every family
+    let n_obs = if thorough { 600 } else { 25 };
+    for _ in 0..n_obs {
         for repr in graphs::UNWEIGHTED {
             let (_, d) = graphs::gen_desc(rng, repr, 130);
             emit(format!("repr_obs {}", d.to_v()));
@@ -57,5 +515,28 @@ pub fn gen(rng: &mut Rng, thorough: bool, emit: &mut dyn FnMut(String)) {
         emit(format!("repr_obs {}", d.to_v()));
         let (_, d) = graphs::gen_wdesc(rng, "wu", 60, 0, 9);
         emit(format!("repr_obs {}", d.to_v()));
+    }
+    // (2) random histories, all six representations
+    let per_repr = if thorough { 1000 } else { 110 };
+    for _ in 0..per_repr {
+        for repr in graphs::ALL_REPRS {
+            let desc = gen_start(rng, repr);
+            let len = rng.below(61);
+            let ops = gen_ops(rng, repr, &desc, len);
+            emit_history(emit, repr, &desc, &ops);
+        }
+    }
+    // (3) exhaustive small scope: every history of length ≤ L over 3 vertices
+    if thorough {
+        gen_exhaustive(emit, "al", 3, 4);
+        gen_exhaustive(emit, "mx", 3, 3);
+        gen_exhaustive(emit, "el", 3, 3);
+        gen_exhaustive(emit, "am", 3, 3);
+        gen_exhaustive(emit, "wi", 3, 3);
+    } else {
+        gen_exhaustive(emit, "mx", 2, 2);
+        gen_exhaustive(emit, "al", 2, 2);
+        gen_exhaustive(emit, "am", 2, 2);
+        gen_exhaustive(emit, "wi", 2, 1);
     }
 }
